@@ -44,6 +44,7 @@ func replaceKey(doc, key, raw string) string {
 // ---------- schema generation ----------
 
 type gen struct {
+	bytesSpec *Schema      // non-nil: []byte has a registered object code in this case (every bytes leaf is coded)
 	barrx  map[int]*Schema // per array length: the registered object code / field key shared by every [N]byte of the case
 	r      *vx.Rng
 	nField int
@@ -89,6 +90,9 @@ func (g *gen) leaf() *Schema {
 	case 6:
 		return &Schema{Kind: "str"}
 	case 7:
+		if g.bytesSpec != nil {
+			return &Schema{Kind: "bytes", Coded: true, Code: g.bytesSpec.Code, CodeU8: g.bytesSpec.CodeU8, RegKey: g.bytesSpec.RegKey}
+		}
 		return &Schema{Kind: "bytes"}
 	case 8:
 		return &Schema{Kind: "barr", N: vx.Pick(g.r, []int{0, 1, 2, 2, 4, 32})}
@@ -183,7 +187,7 @@ func (g *gen) structSchemaT(depth int, iface bool, ptr bool, code bool, allowTyp
 		if f.S.Kind == "u256" || f.S.Kind == "iface" || ((f.S.Kind == "struct" || f.S.Kind == "barrx") && f.S.Ptr) {
 			f.Opt = g.r.Chance(1, 2)
 		}
-		if f.TagKey == "type" && f.S.Kind == "barrx" && !f.S.Ptr && f.S.Code >= 0 {
+		if f.TagKey == "type" && ((f.S.Kind == "barrx" && !f.S.Ptr && f.S.Code >= 0) || (f.S.Kind == "bytes" && f.S.Coded)) {
 			f.TagKey = fmt.Sprintf("k%d", g.nField) // the tag key is also the inner key: it would overwrite the code
 		}
 		// omitempty: on every kind whose emptiness the model value determines (not maps, arrays, by-value structs)
@@ -229,6 +233,10 @@ func newCase(r *vx.Rng) (*Schema, *serix.API) {
 	if !g.codeU8 && r.Chance(1, 3) {
 		g.nCode = 4294967295 - 60
 	}
+	if r.Chance(1, 6) {
+		g.bytesSpec = &Schema{Code: g.nCode, CodeU8: g.codeU8, RegKey: vx.Pick(r, []string{"", "hx", "data", "b"})}
+		g.nCode += 1 + int64(r.Intn(3))
+	}
 	for i, n := 0, vx.Pick(r, []int{0, 1, 2, 3}); i < n; i++ {
 		// alternatives: structs by value or behind a pointer (the usual registration style `(*T)(nil)`), and byte
 		// arrays with a registered object code, by value or behind a pointer (one per array length: the code is per type)
@@ -246,6 +254,10 @@ func newCase(r *vx.Rng) (*Schema, *serix.API) {
 			}
 		}
 		g.alts = append(g.alts, g.structSchema(1, false, r.Bool(), true))
+	}
+	if g.bytesSpec != nil && r.Chance(1, 2) {
+		// []byte with its registered object code as an alternative
+		g.alts = append(g.alts, &Schema{Kind: "bytes", Coded: true, Code: g.bytesSpec.Code, CodeU8: g.bytesSpec.CodeU8, RegKey: g.bytesSpec.RegKey})
 	}
 	top := g.structSchema(0, true, false, r.Chance(1, 4))
 	return top, setup(top)
@@ -676,6 +688,10 @@ func (h *harness) directed() {
 			{Name: "F", Opt: true, S: &Schema{Kind: "barrx", Ptr: true, N: 3, Code: 3, CodeU8: true, RegKey: "pubKeyHash"}},
 			// 83b7f6c: a by-value coded array held in an interface field with a tag key (the tag key was taken for the inner key)
 			{Name: "G", TagKey: "gk", S: &Schema{Kind: "iface", Alts: []*Schema{{Kind: "barrx", N: 3, Code: 3, CodeU8: true, RegKey: "pubKeyHash"}}}},
+			// c9f8064: []byte with a registered object code (field with / without tag key, slice element)
+			{Name: "H", TagKey: "hk", S: &Schema{Kind: "bytes", Coded: true, Code: 9, CodeU8: true, RegKey: "hx"}},
+			{Name: "I", Omit: true, S: &Schema{Kind: "bytes", Coded: true, Code: 9, CodeU8: true, RegKey: "hx"}},
+			{Name: "J", Omit: true, S: &Schema{Kind: "slice", Elem: &Schema{Kind: "bytes", Coded: true, Code: 9, CodeU8: true, RegKey: "hx"}}},
 		}}
 		tapi := setup(ts)
 		p := reflect.New(ts.T)
@@ -684,6 +700,10 @@ func (h *harness) directed() {
 		for _, doc := range []string{
 			`{"a":"0x01020304","b":{"type":3,"bk":"0x010203"},"c":{"type":3,"pubKeyHash":"0x010203"},"d":[{"type":3,"pubKeyHash":"0x01"}],"e":{"x":{"type":3,"pubKeyHash":"0x02"}},"gk":{"type":3,"pubKeyHash":"0x05"}}`,
 			`{"a":"0x01","b":"0x01","c":"0x01","d":[],"e":{},"gk":{"type":3,"gk":"0x05"}}`,
+			`{"a":"0x01","b":"0x01","c":"0x01","d":[],"e":{},"gk":{"type":3,"pubKeyHash":"0x05"},"hk":{"type":9,"hk":"0x0102"},"i":{"type":9,"hx":""},"j":[{"type":9,"hx":"0x03"},"0x04"]}`,
+			`{"a":"0x01","b":"0x01","c":"0x01","d":[],"e":{},"gk":{"type":3,"pubKeyHash":"0x05"},"hk":"0x0102","i":{"hx":"0x01"},"j":[{"type":9}]}`,
+			`{"a":"0x01","b":"0x01","c":"0x01","d":[],"e":{},"gk":{"type":3,"pubKeyHash":"0x05"},"hk":{"type":9,"hx":"0x0102"}}`,
+			`{"a":"0x01","b":"0x01","c":"0x01","d":[],"e":{},"gk":{"type":3,"pubKeyHash":"0x05"},"hk":5,"i":null}`,
 			`{"a":{"data":"0x01"},"b":"0x01","c":"0x02","d":["0x03"],"e":{"x":"0x04"}}`,
 			`{"a":"0x01","b":{"type":9,"bk":"0x01"},"c":{"pubKeyHash":"0x01"},"d":[],"e":{}}`,
 			`{"a":"0x01","b":{"type":3,"pubKeyHash":"0x01"},"c":"0x","d":[],"e":{}}`,
@@ -695,6 +715,21 @@ func (h *harness) directed() {
 			`{"a":"0x01","b":"0x01","c":"0x01","d":[],"e":{},"f":"0x01"}`,
 		} {
 			h.decCase(ts, tapi, lit(doc), false, "directed-bytearray-forms")
+		}
+	}
+	// fixed d7c084d (Go-side oracle only, no model case): a slice of non-byte elements whose type settings carry an object
+	// type made the JSON encoder panic (reflect.Value.Bytes of non-byte slice); it has no map form: an error now
+	{
+		type dirSl []uint16
+		type dirT struct {
+			A dirSl `serix:"a"`
+		}
+		dapi := serix.NewAPI()
+		must(dapi.RegisterTypeSettings(dirSl{}, serix.TypeSettings{}.WithObjectType(uint8(4)).WithLengthPrefixType(serix.LengthPrefixTypeAsByte)))
+		o := runEncode(dapi, reflect.ValueOf(&dirT{A: dirSl{1, 2}}), false)
+		h.st.Count("directed-go:nonbyte-slice-objecttype:" + o.class)
+		if o.class != "err" {
+			h.st.Fail(map[string]any{"sig": "json-encode-panic", "what": "JSONEncode of []uint16 with an object type: expected an error, got " + o.class + " " + short(o.msg, 200)})
 		}
 	}
 	// fixed bb76e84: a nil non-optional *big.Int made the JSON encoder panic (nil dereference); the optional one is omitted
